@@ -21,9 +21,10 @@ RULE = ('cases: seeded populations of 0-12 agents (after an add/remove history, 
         'get_random_agent returns a member, None iff the filter is empty, and every member within 60*k draws (bounded-progress '
         'restatement of "reachable"); shuffle returns a permutation of the filter in a fresh list; environment snapshot unchanged by any '
         'query. Non-trivial query: the filter keeps some but not all agents AND involves a tag filter or >=2 types; distinct by '
-        '(population signature, query).')
+        '(population signature, query). Between two identical questions a resident may hand back (or pick up) a component the question names, '
+        'nobody joining or leaving - also in an environment that is not the model\'s current one.')
 ASSUMPTIONS = ['"every member is reachable" is checked as: each of the k members is drawn within 60*k draws (a uniform pick misses one with probability < 1e-25)']
-FLOORS = {'quick': {'rounds_whose_first_question_is_a_shuffle': 968, 'rounds_whose_first_question_is_a_random_pick': 984, 'queries_naming_a_catalogue_component': 952, 'agents_that_gave_a_component_back_before_joining': 757, 'rounds_of_departures_and_arrivals_between_two_queries': 483, 'populations_queried_after_their_model_completed': 85, 'cases_in_mode_debuglog': 84, 'joins_failing_half_way': 88, 'same_question_asked_of_an_unrelated_model_first': 1758, 'queries': 6000, 'tag_zero_queries': 800, 'tag_queries': 3000, 'template_queries': 4000, 'empty_filters': 1500,
+FLOORS = {'quick': {'residents_that_lost_a_component_between_two_identical_questions': 178, 'residents_that_gained_a_component_between_two_identical_questions': 142, 'rounds_whose_first_question_is_a_shuffle': 968, 'rounds_whose_first_question_is_a_random_pick': 984, 'queries_naming_a_catalogue_component': 952, 'agents_that_gave_a_component_back_before_joining': 757, 'rounds_of_departures_and_arrivals_between_two_queries': 483, 'populations_queried_after_their_model_completed': 85, 'cases_in_mode_debuglog': 84, 'joins_failing_half_way': 88, 'same_question_asked_of_an_unrelated_model_first': 1758, 'queries': 5964, 'tag_zero_queries': 800, 'tag_queries': 3000, 'template_queries': 4000, 'empty_filters': 1500,
                     'random_picks': 100000, 'reachability_checks': 700, 'shuffles': 8000, 'shuffles_reordered': 1626, 'size_preserving_swaps': 1500, 'big_populations': 6, 'ids_taken_over_by_new_objects': 100, 'nested_environment_agents': 300, 'removals_after_resident_attach': 60, 'secondary_environment_populations': 100, 'completed_model_populations': 80,
                     'reach:Core.Environment.get_agents': 100000, 'reach:Core.Environment.get_random_agent': 100000,
                     'reach:Core.Environment.shuffle': 8000},
@@ -163,6 +164,7 @@ def case_population(ctx, case):
     if completed:
         model.complete()         # reporting code samples a finished model: queries and picks keep working
         ctx.count('completed_model_populations')
+    prev_q = repeat_q = None
     for qn in range(12):
         if qn and order and rng.random() < 0.4:
             # membership change between two queries that keeps the population size: one leaves, one (re-)joins
@@ -192,6 +194,22 @@ def case_population(ctx, case):
                 env.add_agent(a_)
                 order.append(a_)
             ctx.count('rounds_of_departures_and_arrivals_between_two_queries')
+        elif qn and order and prev_q is not None and rng.random() < 0.2:
+            # no one joins or leaves, but a resident's equipment changes between two identical questions: it hands back a component
+            # the previous question asked for (or picks one up), and the same question is asked again
+            T_ = rng.choice(prev_q[0]) if prev_q[0] and rng.random() < 0.8 else rng.choice(K[:4])
+            have = [a for a in order if T_ in a.components and not any(a is b for b in poisoned)]
+            lack = [a for a in order if T_ not in a.components]
+            if have and (not lack or rng.random() < 0.6):
+                rng.choice(have).remove_component(T_)
+                ctx.count('residents_that_lost_a_component_between_two_identical_questions')
+            elif lack:
+                a_ = rng.choice(lack)
+                a_.add_component(T_(a_, model))
+                if not any(a_ is b for b in poisoned):
+                    poisoned.append(a_)          # (C03's F2: an agent that gained a component as a resident is never asked to leave again)
+                ctx.count('residents_that_gained_a_component_between_two_identical_questions')
+            repeat_q = prev_q
         popsig = tuple((a.id, a.tag, tuple(sorted(t.__name__ for t in a.components))) for a in order)
         nt = rng.choice([0, 0, 0, 1, 1, 1, 2, 2, 3, 4])
         template = [rng.choice(K) for _ in range(nt)]
@@ -201,6 +219,10 @@ def case_population(ctx, case):
             ctx.count('queries_naming_a_catalogue_component')
         tag = rng.choice([None, None, None, 0, 0, rng.choice(tagpool), rng.choice(tagpool), 12345])
         kw = {} if tag is None and rng.random() < 0.5 else {'tag': tag}
+        if repeat_q is not None:
+            template, tag, kw = list(repeat_q[0]), repeat_q[1], dict(repeat_q[2])
+            repeat_q = None
+        prev_q = (list(template), tag, dict(kw))
         exp = [a for a in order if all(T in a.components for T in template) and (tag is None or a.tag == tag)]
         q = dict(template=[T.__name__ for T in template], tag=tag)
         before = (snapshot(model, universe, K), [id(a) for a in env])
